@@ -246,6 +246,17 @@ func (this *Hnsw) Search(ctx context.Context, query math.Vector, k uint) (Search
 	ef := math.MaxInt(this.config.ef, int(k))
 	neighbors := this.searchLevel(query, entrypoint, ef, 0)
 
+	// searchLevel takes its entrypoint into the result set without looking at
+	// the tombstone, and a removed vertex stays the entrypoint until Remove
+	// hands the entrypoint over: removed items are not returned.
+	liveNeighbors := make([]*utils.PriorityQueueItem, 0, neighbors.Len())
+	for _, item := range neighbors.ToSlice() {
+		if !item.Value().(*hnswVertex).isDeleted() {
+			liveNeighbors = append(liveNeighbors, item)
+		}
+	}
+	neighbors = utils.NewMaxPriorityQueue(liveNeighbors...)
+
 	switch this.config.searchAlgorithm {
 	case HnswSearchSimple:
 		neighbors = this.selectNeighbors(neighbors, int(k))
